@@ -268,4 +268,131 @@ theorem followerRunA_chunked (cfg : Conf) (src : Nat) (s : Node) {ff : Nat} (hne
   simp only [followerRunA]
   exact ⟨s', _, rfl, hlog, hbuf⟩
 
+/-! ## all batches of one send run -/
+
+theorem followerRunA_append (cfg : Conf) (src : Nat) (l1 l2 : List AppendMsg) :
+    ∀ (s : Node), followerRunA cfg src s (l1 ++ l2) =
+      match followerRunA cfg src s l1 with
+      | .error e => .error e
+      | .ok (s1, o1) =>
+        match followerRunA cfg src s1 l2 with
+        | .error e => .error e
+        | .ok (s2, o2) => .ok (s2, o1 ++ o2) := by
+  induction l1 with
+  | nil =>
+    intro s
+    simp only [List.nil_append, followerRunA]
+    cases followerRunA cfg src s l2 with
+    | error e => rfl
+    | ok p => simp
+  | cons am t ih =>
+    intro s
+    simp only [List.cons_append]
+    rw [followerRunA_cons, followerRunA_cons]
+    cases followerAppend cfg s src am with
+    | mk s1 r =>
+      cases r with
+      | error e => rfl
+      | ok o1 =>
+        simp only []
+        rw [ih s1]
+        cases followerRunA cfg src s1 t with
+        | error e => rfl
+        | ok p1 =>
+          obtain ⟨s2, o2⟩ := p1
+          simp only []
+          cases followerRunA cfg src s2 l2 with
+          | error e => rfl
+          | ok p2 => simp
+
+/-- the `append_entries` view of the messages of one batch -/
+theorem render_appendMsgs (B term commit : Nat) (b : Batch) :
+    (render B term commit b).filterMap toAppendMsg =
+      match b with
+      | .regular prev es => [{ prev := prev, entries := es }]
+      | .chunked prev e => (chunksOf B (pickleEntry e)).map fun c => { prev := prev, chunk := some c }
+      | .snapshot _ => [] := by
+  cases b with
+  | regular prev es => simp [render, toAppendMsg]
+  | snapshot a => simp [render, toAppendMsg]
+  | chunked prev e =>
+    have hlen : (pickleEntry e).length = e.plen := by simp [pickleEntry]
+    simp only [render, chunksOf, hlen, List.filterMap_map, List.map_map]
+    rw [← List.filterMap_eq_map]
+    congr 1
+
+theorem take_getLast {log : List Entry} {p : Nat} (hp1 : 1 ≤ p) (hp2 : p ≤ log.length) :
+    (log.take p).getLast? = log[p - 1]? := by
+  rw [List.getLast?_eq_getElem?, List.length_take, Nat.min_eq_left hp2, List.getElem?_take]
+  simp
+  omega
+
+/-- a follower holding the leader's log up to position `p` and consuming the batches from `p` on ends up
+with the leader's log up to the end of the batches -/
+theorem followerRunA_batches (cfg : Conf) (src : Nat) {first : Nat} {log : List Entry} (hne : log ≠ [])
+    (h : IdxOK first log) (B term commit : Nat) (hB : 1 ≤ B) (hovh : ∀ e ∈ log, 1 ≤ e.cmd.ovh) :
+    ∀ (bs : List Batch) (p : Nat) (s : Node) (tail : List Entry), 1 ≤ p → p ≤ log.length → s.log = log.take p →
+      PrevOK log first p bs → ChunkOK B bs → log.drop p = bs.flatMap Batch.entries ++ tail →
+      ∃ s' o, followerRunA cfg src s ((bs.flatMap (render B term commit)).filterMap toAppendMsg) = .ok (s', o) ∧
+        s'.log = log.take (p + (bs.flatMap Batch.entries).length) := by
+  intro bs
+  induction bs with
+  | nil => intro p s tail _ _ hs _ _ _; exact ⟨s, [], by simp [followerRunA], by simpa using hs⟩
+  | cons b bs ih =>
+    intro p s tail hp1 hp2 hs hprev hck hdrop
+    obtain ⟨⟨pe, hpe, hbprev⟩, hprev'⟩ := hprev
+    have hsne : s.log ≠ [] := by
+      rw [hs]; intro hnil
+      have h1 : (log.take p).length = p := by rw [List.length_take]; omega
+      rw [hnil] at h1
+      simp at h1; omega
+    have hsidx : IdxOK first s.log := by
+      have : log = log.take p ++ log.drop p := (List.take_append_drop p log).symm
+      rw [this] at h
+      rw [hs]; exact h.prefix
+    have hslen : s.log.length = p := by rw [hs]; simp; omega
+    have hslast : s.log.getLast? = some pe := by rw [hs, take_getLast hp1 hp2]; exact hpe
+    simp only [flatMap_cons', List.filterMap_append, List.append_assoc] at hdrop ⊢
+    rw [followerRunA_append]
+    -- the first batch
+    have hstep : ∃ s1 o1, followerRunA cfg src s ((render B term commit b).filterMap toAppendMsg) = .ok (s1, o1) ∧
+        s1.log = s.log ++ b.entries := by
+      rw [render_appendMsgs]
+      cases b with
+      | snapshot a => simp [Batch.prev] at hbprev
+      | regular prev es =>
+        simp only [Batch.prev] at hbprev
+        obtain ⟨s1, o1, hfa, hlog, _⟩ := followerAppend_extend cfg s src hsne hsidx hslast es
+        rw [hslen] at hfa
+        refine ⟨s1, o1 ++ [], ?_, hlog⟩
+        simp only [hbprev, followerRunA_cons, hfa, followerRunA]
+      | chunked prev e =>
+        simp only [Batch.prev] at hbprev
+        have hsz : B ≤ e.cmd.size := hck _ (List.mem_cons_self)
+        have hmem : e ∈ log := by
+          have : e ∈ log.drop p := by rw [hdrop]; simp [Batch.entries]
+          exact List.mem_of_mem_drop this
+        have hE : B < e.plen := by have := hovh e hmem; unfold Entry.plen; omega
+        obtain ⟨s1, o1, hrun, hlog, _⟩ := followerRunA_chunked cfg src s hsne hsidx hslast B hB e hE
+        rw [hslen] at hrun
+        exact ⟨s1, o1, by rw [hbprev]; exact hrun, hlog⟩
+    obtain ⟨s1, o1, hrun1, hlog1⟩ := hstep
+    rw [hrun1]
+    simp only []
+    have hlen_b : p + b.entries.length ≤ log.length := by
+      have := congrArg List.length hdrop
+      simp at this; omega
+    have hs1 : s1.log = log.take (p + b.entries.length) := by
+      rw [hlog1, hs, List.take_add]
+      congr 1
+      rw [hdrop]; simp
+    have hdrop' : log.drop (p + b.entries.length) = bs.flatMap Batch.entries ++ tail := by
+      rw [← List.drop_drop, hdrop]; simp
+    have hck' : ChunkOK B bs := fun b' hb' => hck b' (List.mem_cons_of_mem _ hb')
+    obtain ⟨s', o', hrun', hlog'⟩ := ih (p + b.entries.length) s1 tail (by omega) hlen_b hs1 hprev' hck' hdrop'
+    rw [hrun']
+    refine ⟨s', o1 ++ o', rfl, ?_⟩
+    rw [hlog']
+    simp [Nat.add_assoc]
+
 end PSO.NodeSend
